@@ -14,6 +14,7 @@ import json, os, re, shutil, subprocess, sys, threading, queue, glob
 
 args = sys.argv[1:]
 RND, WORKERS, KIND, IDS = "4", 3, "seeded", []
+ONLY = ""
 ROOT = "/tmp/evalw"
 i = 0
 while i < len(args):
@@ -25,6 +26,8 @@ while i < len(args):
         KIND = args[i + 1]; i += 2
     elif args[i] == "--root":
         ROOT = args[i + 1]; i += 2
+    elif args[i] == "--props":          # "own" = the change's own property, C01 and C11 only (a short run)
+        ONLY = args[i + 1]; i += 2
     else:
         IDS.append(args[i]); i += 1
 PROPS = ["C%02d" % k for k in range(1, 18)]
@@ -109,7 +112,7 @@ def do_seeded(w, ID):
         sh("git checkout -q -- . && git clean -fdq src schema tests", f"{w}/repo")
         r = sh(f"git apply {out}/patch.diff", f"{w}/repo")
         if r.returncode == 0:
-            res = run_checks(w, PROPS)
+            res = run_checks(w, PROPS if not ONLY else sorted({meta.get("property", ID[:3]), "C01", "C11"}) if ONLY == "own" else ONLY.split(","))
             for p, v in res.items():
                 if v["exit"] != 0 and "replay=" in v["line"]:
                     rp = v["line"].split("replay=")[1].split(" ")[0]
